@@ -1,3 +1,4 @@
+import TT.Gen.Consts
 import TT.Model.UdpFlows
 import TT.Lemmas.UdpFlows
 import TT.Model.UdpSocks
@@ -240,6 +241,36 @@ theorem down_bytes_are_delivered_bytes (c : Cfg) (ops : List Op) :
   show (run c (init c) ops).1.down = ((run c (init c) ops).2.map _).sum
   rw [this]
   exact Nat.zero_add _
+
+/-! ## The receive buffer
+
+The histories above treat a reply as delivered with the length it arrived with. That is a fact about
+the receive buffer of the multiplexer: `recv` into a buffer of `cap` bytes keeps `min cap n` bytes of
+an `n`-byte datagram and drops the rest without an error. The capacities are read from the source on
+every run (`TT.Gen.udp_recv_capacity_direct`, `TT.Gen.udp_recv_capacity_socks`). -/
+
+/-- what `recv` keeps of an `n`-byte datagram in a buffer of `cap` bytes -/
+def recvInto (cap n : Nat) : Nat := min cap n
+
+/-- the largest payload of a UDP datagram over IPv4: a 65535-byte packet less the two headers
+(`net_utils.rs` assumes the slightly larger IPv6 datagrams away, and so does this theorem) -/
+def maxIpv4UdpPayload : Nat := 65535 - TT.Gen.min_ipv4_header_size - TT.Gen.udp_header_size
+
+/-- **a reply is handed on with the length it arrived with** (direct forwarder): every datagram an
+IPv4 peer can send fits the buffer `read_pending_socket` receives into -/
+theorem direct_reply_received_whole (n : Nat) (h : n ≤ maxIpv4UdpPayload) :
+    recvInto TT.Gen.udp_recv_capacity_direct n = n := by
+  have : maxIpv4UdpPayload ≤ TT.Gen.udp_recv_capacity_direct := by decide
+  unfold recvInto; omega
+
+/-- the same for the SOCKS5 forwarder, whose buffer receives the relay's datagram (header and payload) -/
+theorem socks_relay_datagram_received_whole (n : Nat) (h : n ≤ maxIpv4UdpPayload) :
+    recvInto TT.Gen.udp_recv_capacity_socks n = n := by
+  have : maxIpv4UdpPayload ≤ TT.Gen.udp_recv_capacity_socks := by decide
+  unfold recvInto; omega
+
+/-- the bound is the one the wire has, and a shorter buffer would cut -/
+example : maxIpv4UdpPayload = 65507 ∧ recvInto 65500 65507 = 65500 := by decide
 
 /-! ## Non-vacuity -/
 
